@@ -62,6 +62,13 @@ CHECKS = {
         design_ref="3/C08",
         note="Trusts TLC, dash's `command -v`, shutil.which and explicit directory mtimes; one command name; READ_DIR_ONCE empty. Two cache-staleness defects are known findings.",
     ),
+    "C13": dict(
+        category="fault_enumeration",
+        technique="TLA+ spec HistFS (temp-file-then-rename protocol, transactions, Crash between any two steps) checked by TLC; every history-rewriting operation run in a forked child under a file-system/SQL interposer that kills the process or fails the call at every operation k (and inside writes); recorded operation sequences + what is found on disk validated against HistFSTrace by TLC",
+        text="TLC checks Atomic (every history file is a complete old or new version in every reachable state, crash states included) on the protocol model; for each of 8 real operations (JSON flush at exit / in background, delete, erasedups, GC unlock; SQLite append, erasedups, delete) every fault point is enumerated with a kill and with an injected OSError, the files are re-loaded, and the recorded operation sequence together with the observed file states must be a behaviour of the protocol.",
+        design_ref="3/C13",
+        note="Process kill and failing calls, not power loss; SQLite's atomic commit trusted; fault points are the interposed Python-level calls.",
+    ),
 }
 
 ALL = [f"C{i:02d}" for i in range(1, 21)]
